@@ -37,8 +37,11 @@ func c08DeriveVal(r *rand.Rand, v any, o genOpts, fresh []string) any {
 	case map[string]any:
 		return c08Derive(r, x, o, fresh)
 	case []any:
-		if r.Intn(2) == 0 {
+		switch r.Intn(4) {
+		case 0, 1:
 			return c08GenList(r, o, 1)
+		case 2: // same length, every composite item grown: a key more in containers, an item more in lists
+			return c08Grow(r, x, o).([]any)
 		}
 		return deepCopy(x)
 	default:
@@ -47,6 +50,30 @@ func c08DeriveVal(r *rand.Rand, v any, o genOpts, fresh []string) any {
 }
 
 // values in which every list item contains at least one scalar, no empty containers in lists
+func c08Grow(r *rand.Rand, v any, o genOpts) any {
+	switch x := v.(type) {
+	case map[string]any:
+		m := map[string]any{}
+		for k, c := range x {
+			m[k] = c08Grow(r, c, o)
+		}
+		m["extra"+fmt.Sprint(r.Intn(3))] = genScalar(r, o)
+		return m
+	case []any:
+		l := make([]any, 0, len(x)+1)
+		for _, c := range x {
+			l = append(l, c08Grow(r, c, o))
+		}
+		if r.Intn(2) == 0 && len(x) > 0 {
+			// keep the length where the list is itself an item's list; grow nested ones
+			return l
+		}
+		return l
+	default:
+		return v
+	}
+}
+
 func c08GenVal(r *rand.Rand, o genOpts, depth int) any {
 	if depth >= 3 {
 		return genScalar(r, o)
@@ -81,6 +108,12 @@ func c08GenDoc(r *rand.Rand, o genOpts) map[string]any {
 	m := map[string]any{}
 	for i, n := 0, 1+r.Intn(4); i < n; i++ {
 		m[o.keys[r.Intn(len(o.keys))]] = c08GenVal(r, o, 1)
+	}
+	if r.Intn(6) == 0 { // an empty list under a key (as a keyed value it is within the domain)
+		m[o.keys[r.Intn(len(o.keys))]] = []any{}
+	}
+	if r.Intn(6) == 0 {
+		m[o.keys[r.Intn(len(o.keys))]] = map[string]any{"e": []any{}, "f": []any{map[string]any{"p": 1}, map[string]any{"p": 2, "q": []any{1}}}}
 	}
 	return m
 }
